@@ -211,31 +211,42 @@ func VerifC05OtherFile() {
 			"volumes": []any{"./data:/data"}, "hostname": "h"},
 		"x": map[string]any{"image": "base", "extends": map[string]any{"service": "b"}},
 	}}
+	// the other file lives below the project directory, or in a sibling directory whose name starts with
+	// the project directory's name
+	oRel := []string{"other", "../w-common"}[vrtChoice("otherDir", 2)]
+	oAbs := root + "/w/other"
+	if oRel != "other" {
+		oAbs = root + "/w-common"
+	}
 	present := vrtChoice("filePresent", 2) == 1
 	if present {
-		vrtYamlFile(root+"/w/other/compose.yaml", other)
+		vrtYamlFile(oAbs+"/compose.yaml", other)
 	}
 	if present && vrtChoice("homonymChain", 2) == 1 {
 		// compose.yaml:web -> other/compose.yaml:web -> third/compose.yaml:web : same base file name and the
 		// same service name at every link, no cycle
-		vrtYamlFile(root+"/w/third/compose.yaml", map[string]any{"services": map[string]any{"web": map[string]any{"image": "third", "build": map[string]any{"context": "./t"}}}})
+		thirdAbs := root + "/w/third"
+		if oRel != "other" {
+			thirdAbs = root + "/third"
+		}
+		vrtYamlFile(thirdAbs+"/compose.yaml", map[string]any{"services": map[string]any{"web": map[string]any{"image": "third", "build": map[string]any{"context": "./t"}}}})
 		other["services"].(map[string]any)["web"] = map[string]any{"extends": map[string]any{"file": "../third/compose.yaml", "service": "web"}, "hostname": "mid"}
-		vrtYamlFile(root+"/w/other/compose.yaml", other)
-		m, err := tcLoad(nil, nil, map[string]any{"services": map[string]any{"web": map[string]any{"extends": map[string]any{"file": "other/compose.yaml", "service": "web"}, "user": "u"}}})
+		vrtYamlFile(oAbs+"/compose.yaml", other)
+		m, err := tcLoad(nil, nil, map[string]any{"services": map[string]any{"web": map[string]any{"extends": map[string]any{"file": oRel + "/compose.yaml", "service": "web"}, "user": "u"}}})
 		vrtObserve("err", err != nil)
 		vrtAssert("acyclic-homonym-chain-loads", err == nil)
 		if err == nil {
 			s := tcSvc(m, "web")
 			vrtAssert("homonym-chain-values", s["image"] == any("third") && s["hostname"] == any("mid") && s["user"] == any("u"))
 			b, _ := s["build"].(map[string]any)
-			vrtAssert("homonym-chain-path-anchored-at-third", b["context"] == any(root+"/w/third/t"))
+			vrtAssert("homonym-chain-path-anchored-at-third", b["context"] == any(thirdAbs+"/t"))
 		}
 		return
 	}
 	target := []string{"x", "b", "zz"}[vrtChoice("target", 3)]
 	main := map[string]any{"services": map[string]any{
 		"a": map[string]any{"extends": map[string]any{"service": "b"}, "user": "u"},
-		"b": map[string]any{"extends": map[string]any{"file": "other/compose.yaml", "service": target}, "hostname": "own"},
+		"b": map[string]any{"extends": map[string]any{"file": oRel + "/compose.yaml", "service": target}, "hostname": "own"},
 	}}
 	m, err := tcLoad(nil, nil, main)
 	vrtObserve("err", err != nil)
@@ -254,11 +265,11 @@ func VerifC05OtherFile() {
 		s := tcSvc(m, n)
 		vrtObserve(n, s)
 		bld, _ := s["build"].(map[string]any)
-		vrtAssert("inherited-build-context-anchored-at-other-dir", bld["context"] == any(root+"/w/other/ctx"+v))
+		vrtAssert("inherited-build-context-anchored-at-other-dir", bld["context"] == any(oAbs+"/ctx"+v))
 		ef, _ := s["env_file"].([]any)
-		vrtAssert("inherited-env-file-anchored", len(ef) == 1 && ef[0].(map[string]any)["path"] == any(root+"/w/other/e.env"))
+		vrtAssert("inherited-env-file-anchored", len(ef) == 1 && ef[0].(map[string]any)["path"] == any(oAbs+"/e.env"))
 		vols, _ := s["volumes"].([]any)
-		vrtAssert("inherited-bind-anchored", len(vols) == 1 && vols[0].(map[string]any)["source"] == any(root+"/w/other/data"))
+		vrtAssert("inherited-bind-anchored", len(vols) == 1 && vols[0].(map[string]any)["source"] == any(oAbs+"/data"))
 		vrtAssert("own-attribute-wins", s["hostname"] == any("own"))
 		_, hasExt := s["extends"]
 		vrtAssert("no-extends-left", !hasExt)
